@@ -16,11 +16,13 @@
   * at_most_one_end_or_error, exactly_one_end_or_error, connect_failure_fires_error
   * nothing_relayed_after_end
   * ignore_mode_fires_no_end_or_error_hook
-  * messages_handled_in_arrival_order, handled_is_prefix_of_arrivals: the pause queue never reorders
+  * messages_handled_in_arrival_order, handled_is_prefix_of_arrivals, ignore_mode_relays_in_arrival_order:
+    the pause queue never reorders (with and without a flow)
   * round 3: `Input.hookKill` (flow.kill() inside any hook) is part of every schedule; *_any_sockets variants hold when
     write_eof raises OSError (initX); kill_in_message_hook_still_relays, kill_is_plain_completion
 -/
 import MitmVerif.Lemmas.C29
+import MitmVerif.Lemmas.C29Ignore
 namespace MitmVerif.Props.C29
 open MitmVerif MitmVerif.C29 MitmVerif.C29.Lemmas
 
@@ -411,6 +413,31 @@ theorem handled_is_prefix_of_arrivals (p : Proto) (c : Bool) (ins : List Input) 
   | start => exact ⟨_, h.2.1 hph⟩
   | relay => exact ⟨_, h.2.2.1 hph⟩
   | done => exact h.2.2.2 hph
+
+/-- **Arrival order without a flow (`ignore=True`).**  The SendData commands yielded so far (direction, payload),
+    followed by the data events still waiting in the pause queue, are exactly the data and injected messages delivered
+    after `Start`, in delivery order; once the relay has ended they are a prefix of them. -/
+theorem ignore_mode_relays_in_arrival_order (p : Proto) (c : Bool) (ins : List Input) :
+    (((run (init p false c) ins).phase = .start ∨ (run (init p false c) ins).phase = .relay) →
+      sentMsgs (run (init p false c) ins).trace ++ dataOf (run (init p false c) ins).queue = accepted false ins) ∧
+    ∃ rest, sentMsgs (run (init p false c) ins).trace ++ rest = accepted false ins := by
+  have h := arri_run (init p false c) ins [] rfl (full_init p false c) (arri_init p c)
+  rw [List.nil_append, arrivals_eq_accepted] at h
+  have e : decide ((init p false c).phase ≠ Phase.idle) = false := by simp [init]
+  rw [e] at h
+  refine ⟨?_, ?_⟩
+  · intro hrun
+    rcases hrun with hs | hr
+    · exact h.2.1 hs
+    · exact h.2.2.1 hr
+  · cases hph : (run (init p false c) ins).phase with
+    | idle => exact ⟨[], by rw [(h.1 hph).2, (h.1 hph).1]; rfl⟩
+    | start => exact ⟨_, h.2.1 hph⟩
+    | relay => exact ⟨_, h.2.2.1 hph⟩
+    | done => exact h.2.2.2 hph
+
+example : sentMsgs (run (init .tcp false false) [.start, .data .client [1], .data .client [2], .closed .client false,
+    .connectDone false, .data .server [3]]).trace = [⟨true, [1]⟩, ⟨true, [2]⟩, ⟨false, [3]⟩] := by decide
 
 /-- three server replies and a client message buffered behind one pending hook are handled 1,2,3 - not 3,2,1 -/
 example : hookMsgs (run (init .tcp true true) [.start, .hookDone none, .data .client [0], .data .server [1],
